@@ -7,4 +7,9 @@ ElemBDef == ValB \cup (IF WithNull THEN {NULL} ELSE {})
 EmitRoll2 ==
     TRUE =>
         PrintT(<<"REPLAY", ToJson([op |-> "roll2", w |-> w, mp |-> mp, xs |-> as, ys |-> bs, exp |-> out])>>)
+SignedB == {0 - 2, 0, 1, 3}
+\* simulation runs emit the complete history only
+EmitFull2 ==
+    Len(as) = MaxLen =>
+        PrintT(<<"REPLAY", ToJson([op |-> "roll2", w |-> w, mp |-> mp, xs |-> as, ys |-> bs, exp |-> out])>>)
 =============================================================================
